@@ -126,6 +126,9 @@ type runResult struct {
 	results  []*FuncResult
 	obls     []*Obligation
 	bindErrs []string
+	// frameOnly[f]: f belongs to this property's check only through a `P:frame` entry (and is not a callee of a function
+	// that serves the property in full): only its class-R obligations and aliasing guards are judged for the property
+	frameOnly map[string]bool
 	wall     float64
 	solveSec float64
 }
@@ -188,6 +191,35 @@ func runProperty(repo, prop string, timeoutSec, seed int, smtDir string) (*runRe
 				if fi, ok := prog.Funcs[k]; ok && fi.Contr != nil && !done[k] {
 					work = append(work, fi.Contr)
 				}
+			}
+		}
+	}
+	if prop != "" {
+		full := map[string]bool{}
+		byKey := map[string]*FuncResult{}
+		for _, r := range rr.results {
+			byKey[r.Fn.Key] = r
+			if contains(r.Fn.Contr.Props, prop) && r.Fn.Contr.PropQual[prop] == "" {
+				full[r.Fn.Key] = true
+			}
+		}
+		for changed := true; changed; {
+			changed = false
+			for _, r := range rr.results {
+				if !full[r.Fn.Key] {
+					continue
+				}
+				for _, k := range calleeKeys(r) {
+					if _, ok := byKey[k]; ok && !full[k] {
+						full[k], changed = true, true
+					}
+				}
+			}
+		}
+		rr.frameOnly = map[string]bool{}
+		for _, r := range rr.results {
+			if !full[r.Fn.Key] {
+				rr.frameOnly[r.Fn.Key] = true
 			}
 		}
 	}
@@ -478,6 +510,14 @@ func cmdCheck(args []string) int {
 	byClass := map[string][2]int{}
 	byBackend := map[string]int{}
 	var samples []any
+	judged := groups[:0:0]
+	for _, g := range groups {
+		if fk, _, _ := strings.Cut(g.name, "#"); rr.frameOnly[fk] && !isFrameObligation(g.name) {
+			continue // a function that serves this property through its frame only: its other clauses belong elsewhere
+		}
+		judged = append(judged, g)
+	}
+	groups = judged
 	for _, g := range groups {
 		if g.ok {
 			nObl++
@@ -553,6 +593,9 @@ func cmdCheck(args []string) int {
 	}
 	var missing []string
 	for _, n := range base.Properties[*prop] {
+		if fk, _, _ := strings.Cut(n, "#"); rr.frameOnly[fk] && !isFrameObligation(n) {
+			continue
+		}
 		if !present[n] && isTopLevelClaim(n) {
 			missing = append(missing, n)
 		}
@@ -899,6 +942,11 @@ func thoroughExtras(repo, prop string, seed int, extra map[string]any) int {
 // per touched field, closure preconditions, vacuity covers) legitimately come and go when code is restructured, and
 // their disappearance alone is not evidence against the property.
 var topLevelRe = regexp.MustCompile(`#(F\.ensures\[\d+\]|F\.onpanic\[|F\.yields2?\[|F\.assert|F\.cbinv\[|F\.panics-allowed|R\.functional|R\.noglobals|R\.noglobalstate|R\.ordered|R\.frame-scan)`)
+
+// isFrameObligation: frame / purity / ordering obligations (class R) and the slice-aliasing guards.
+func isFrameObligation(name string) bool {
+	return strings.Contains(name, "#R.") || strings.Contains(name, "#S.alias-")
+}
 
 func isTopLevelClaim(name string) bool { return topLevelRe.MatchString(name) }
 
